@@ -476,3 +476,430 @@ Proof.
   - destruct fs; [|discriminate].
     rewrite (nth_map0 (fun x => fst (fst x))), (NR i Hi) by reflexivity; rewrite ?(NR i Hi), row_vals_named. cbn [fst snd]. rewrite ED. reflexivity.
 Qed.
+
+(* ================================================================ the first record and a reset, field by field *)
+Lemma nth_map_N : forall (g : N -> N) l i, g 0 = 0 -> nth i (map g l) 0 = g (nth i l 0).
+Proof.
+  intros g l i H. transitivity (nth i (map g l) (g 0)); [f_equal; symmetry; exact H | apply map_nth].
+Qed.
+
+Lemma spec_create_facts : forall c fs fd o, o_start o < o_end o ->
+  let f' := spec_create c fs fd o in
+  let vals := [mul8 (o_oct o) / (o_end o - o_start o); mul8 (o_roct o) / (o_end o - o_start o)] in
+  (forall n, a_end (nd n f') = if feeds n (fs, fd, o) then o_end o else 0) /\
+  (forall n, length (a_stat (nd n f')) = length (o_stat o)) /\
+  (forall n i, nth i (a_stat (nd n f')) 0 = if feeds n (fs, fd, o) then stat i o else 0) /\
+  (forall n, a_tp (nd n f') = if feeds n (fs, fd, o) then vals else [0; 0]) /\
+  f_end f' = o_end o /\ f_stat f' = o_stat o /\ f_tp f' = vals.
+Proof.
+  intros c fs fd o LT. cbv zeta. unfold spec_create.
+  assert (E : N.ltb (o_start o) (o_end o) = true) by (apply N.ltb_lt; exact LT). rewrite E.
+  cbn [f_src f_dst f_end f_stat f_tp].
+  split; [intros []; reflexivity|].
+  split; [intros []; cbn [nd f_src f_dst a_stat]; apply map_length|].
+  split.
+  { intros [] i; cbn [nd f_src f_dst a_stat feeds fst snd].
+    - rewrite (nth_map_N (fun v => if fs then v else 0)) by (destruct fs; reflexivity). reflexivity.
+    - rewrite (nth_map_N (fun v => if fd then v else 0)) by (destruct fd; reflexivity). reflexivity. }
+  split; [intros []; reflexivity|].
+  repeat split.
+Qed.
+
+Lemma zero_deltas_length : forall c l, length l = nstats c -> length (zero_deltas c l) = nstats c.
+Proof. intros c l H. unfold zero_deltas. rewrite map_length, combine_length. unfold nstats in *. lia. Qed.
+Lemma zero_deltas_nth : forall c l i, length l = nstats c -> (i < nstats c)%nat ->
+  nth i (zero_deltas c l) 0 = if is_delta c i then 0 else nth i l 0.
+Proof.
+  intros c l i H Hi. unfold zero_deltas.
+  transitivity (nth i (map (fun sv : string * N => if contains "Delta" (fst sv) then 0 else snd sv)
+                           (combine (c_stats c) l))
+                      ((fun sv : string * N => if contains "Delta" (fst sv) then 0 else snd sv) ("", 0))).
+  { reflexivity. }
+  rewrite (map_nth (fun sv : string * N => if contains "Delta" (fst sv) then 0 else snd sv)).
+  rewrite combine_nth by (unfold nstats in H; congruence). reflexivity.
+Qed.
+
+(* ================================================================ how the closed forms move with one event *)
+Lemma node_recs_snoc : forall n evs fs fd o,
+  node_recs n (evs ++ [Rec fs fd o]) = if feeds n (fs, fd, o) then node_recs n evs ++ [o] else node_recs n evs.
+Proof.
+  intros. rewrite node_recs_app. unfold node_recs at 2. cbn [recs flat_map ev_rec app filter].
+  destruct (feeds n (fs, fd, o)); cbn [map snd]; [reflexivity | apply app_nil_r].
+Qed.
+Lemma node_recs_reset : forall n evs, node_recs n (evs ++ [Reset]) = node_recs n evs.
+Proof. intros. rewrite node_recs_app. apply app_nil_r. Qed.
+
+Lemma node_tp_two : forall n evs, exists a b, node_tp n evs = [a; b].
+Proof.
+  intros. unfold node_tp. destruct (node_recs n (since_reset evs)); [eexists; eexists; reflexivity|].
+  destruct (rev (node_recs n evs)); [eexists; eexists; reflexivity|].
+  unfold tp_pair. eexists; eexists; reflexivity.
+Qed.
+
+Lemma node_tp_snoc : forall n evs fs fd o,
+  node_tp n (evs ++ [Rec fs fd o]) =
+  if feeds n (fs, fd, o) then tp_pair (last_opt (node_recs n evs)) o else node_tp n evs.
+Proof.
+  intros. unfold node_tp. rewrite since_reset_rec, !node_recs_snoc.
+  destruct (feeds n (fs, fd, o)); [|reflexivity].
+  rewrite rev_unit. destruct (node_recs n (since_reset evs)); reflexivity.
+Qed.
+Lemma node_tp_reset : forall n evs, node_tp n (evs ++ [Reset]) = [0; 0].
+Proof. intros. unfold node_tp. rewrite since_reset_reset. reflexivity. Qed.
+
+Lemma node_delta_snoc : forall n i evs fs fd o,
+  node_delta n i (evs ++ [Rec fs fd o]) =
+  if feeds n (fs, fd, o) then add64 (stat i o) (node_delta n i evs) else node_delta n i evs.
+Proof.
+  intros. unfold node_delta. rewrite since_reset_rec, node_recs_snoc.
+  destruct (feeds n (fs, fd, o)); [|reflexivity].
+  unfold col. rewrite map_app. cbn [map]. apply sum64_snoc.
+Qed.
+Lemma node_delta_reset : forall n i evs, node_delta n i (evs ++ [Reset]) = 0.
+Proof. intros. unfold node_delta. rewrite since_reset_reset. reflexivity. Qed.
+
+Lemma node_total_snoc : forall n i evs fs fd o,
+  node_total n i (evs ++ [Rec fs fd o]) = if feeds n (fs, fd, o) then stat i o else node_total n i evs.
+Proof.
+  intros. unfold node_total. rewrite node_recs_snoc.
+  destruct (feeds n (fs, fd, o)); [rewrite last_opt_snoc|]; reflexivity.
+Qed.
+Lemma node_end_snoc : forall n evs fs fd o,
+  node_end n (evs ++ [Rec fs fd o]) = if feeds n (fs, fd, o) then o_end o else node_end n evs.
+Proof.
+  intros. unfold node_end. rewrite node_recs_snoc.
+  destruct (feeds n (fs, fd, o)); [rewrite last_opt_snoc|]; reflexivity.
+Qed.
+
+(* ================================================================ what the contract says about the records so far *)
+Lemma wf_recs : forall c evs, wf_events c evs = true -> forall x, In x (recs evs) ->
+  o_start (snd x) < o_end (snd x) /\ (forall v, In v (o_stat (snd x)) -> v < W64) /\
+  (fst (fst x) || snd (fst x)) = true.
+Proof.
+  intros c evs. induction evs as [|e evs IH] using rev_ind; intros WF x Hx; [contradiction|].
+  rewrite wf_events_snoc in WF. apply andb_prop in WF. destruct WF as [W1 W2].
+  rewrite recs_app in Hx. apply in_app_or in Hx. destruct Hx as [Hx|Hx]; [exact (IH W1 x Hx)|].
+  destruct e as [fs fd o|]; [|contradiction]. destruct Hx as [Hx|[]]. subst x. cbn [snd fst].
+  unfold ev_ok in W2.
+  repeat (let X := fresh "E" in apply andb_prop in W2; destruct W2 as [W2 X]).
+  split; [apply N.ltb_lt; assumption|]. split; [|assumption].
+  intros v Hv. rewrite forallb_forall in E2. apply N.ltb_lt. apply E2. exact Hv.
+Qed.
+
+Lemma in_node_recs : forall n evs p, In p (node_recs n evs) -> exists x, In x (recs evs) /\ snd x = p.
+Proof.
+  intros n evs p H. unfold node_recs in H. apply in_map_iff in H. destruct H as (x & H1 & H2).
+  apply filter_In in H2. exists x. split; [apply H2 | exact H1].
+Qed.
+
+Lemma since_reset_sub : forall evs x, In x (recs (since_reset evs)) -> In x (recs evs).
+Proof.
+  induction evs as [|e evs IH] using rev_ind; intros x H; [exact H|].
+  destruct e as [fs fd o|].
+  - rewrite since_reset_rec in H. rewrite recs_app in *. apply in_app_or in H. apply in_or_app.
+    destruct H; [left; auto | right; assumption].
+  - rewrite since_reset_reset in H. contradiction.
+Qed.
+
+(* a flow that needs no correlation: every record feeds both nodes, they are one stream *)
+Lemma both_same_recs : forall (l : list frec), (forall y, In y l -> fst (fst y) && snd (fst y) = true) ->
+  map snd (filter (feeds SrcNode) l) = map snd (filter (feeds DstNode) l).
+Proof.
+  induction l as [|y l IH]; intros H; [reflexivity|]. cbn [filter feeds].
+  pose proof (H y (or_introl eq_refl)) as Hy. apply andb_prop in Hy. destruct Hy as [H1 H2].
+  rewrite H1, H2. cbn [map]. f_equal. apply IH. intros z Hz. apply H. right. exact Hz.
+Qed.
+Lemma both_same : forall evs, (forall y, In y (recs evs) -> fst (fst y) && snd (fst y) = true) ->
+  forall n, node_recs n evs = node_recs DstNode evs /\
+            node_recs n (since_reset evs) = node_recs DstNode (since_reset evs).
+Proof.
+  intros evs H [|]; [|split; reflexivity]. unfold node_recs. split; apply both_same_recs; [exact H|].
+  intros y Hy. apply H. apply since_reset_sub. exact Hy.
+Qed.
+
+(* ================================================================ the invariant: the spec state is the closed forms *)
+Record closed (c : agg_config) (evs : list fev) (f : flow_abs) : Prop := {
+  cl_len : forall n, length (a_stat (nd n f)) = nstats c;
+  cl_lenc : length (f_stat f) = nstats c;
+  cl_end : forall n, a_end (nd n f) = node_end n evs;
+  cl_tot : forall n i, (i < nstats c)%nat -> is_delta c i = false ->
+           nth i (a_stat (nd n f)) 0 = node_total n i evs;
+  cl_del : forall n i, (i < nstats c)%nat -> is_delta c i = true ->
+           nth i (a_stat (nd n f)) 0 = node_delta n i evs;
+  cl_tp : forall n, a_tp (nd n f) = node_tp n evs;
+  cl_fend : f_end f = maxl (map (fun x : frec => o_end (snd x)) (recs evs));
+  cl_lat : exists x, latest evs = Some x /\ f_end f = o_end (snd x);
+  cl_lnode : a_end (nd (latest_node evs) f) = f_end f;
+  cl_cdel : forall i, (i < nstats c)%nat -> is_delta c i = true ->
+            nth i (f_stat f) 0 = nth i (a_stat (nd (latest_node evs) f)) 0;
+  cl_ctp : f_tp f = a_tp (nd (latest_node evs) f);
+  cl_fr : maxl (map o_end (fronts evs)) = f_end f;
+  cl_ctot : forall i, (i < nstats c)%nat -> is_delta c i = false ->
+            nth i (f_stat f) 0 = maxl (col i (fronts evs));
+  cl_mono : flow_mono c evs = true -> forall x, latest evs = Some x ->
+            forall i, (i < nstats c)%nat -> is_delta c i = false -> nth i (f_stat f) 0 = stat i (snd x) }.
+
+Lemma stat_range : forall o i, (forall v, In v (o_stat o) -> v < W64) -> stat i o < W64.
+Proof.
+  intros o i H. unfold stat. destruct (Nat.lt_ge_cases i (length (o_stat o))) as [L|L].
+  - apply H. apply nth_In. exact L.
+  - rewrite nth_overflow by exact L. reflexivity.
+Qed.
+
+Lemma mul8_sub0 : forall a, mul8 (a - 0) = mul8 a.
+Proof. intros. rewrite N.sub_0_r. reflexivity. Qed.
+
+Lemma feeds_reporter : forall fs fd o, (fs || fd) = true -> feeds (reporter fd) (fs, fd, o) = true.
+Proof. intros [] [] o H; try discriminate; reflexivity. Qed.
+
+Lemma closed_create : forall c evs fs fd o,
+  recs evs = [] -> since_reset evs = [] ->
+  ev_ok c evs (Rec fs fd o) = true -> obs_ok c o ->
+  closed c (evs ++ [Rec fs fd o]) (spec_create c fs fd o).
+Proof.
+  intros c evs fs fd o RE SR OK (OL & OO & OR).
+  unfold ev_ok in OK.
+  repeat (let X := fresh "E" in apply andb_prop in OK; destruct OK as [OK X]).
+  apply N.ltb_lt in E3.
+  assert (RG : forall v, In v (o_stat o) -> v < W64).
+  { intros v Hv. rewrite forallb_forall in E2. apply N.ltb_lt. apply E2. exact Hv. }
+  destruct (spec_create_facts c fs fd o E3) as (A1 & A2 & A3 & A4 & A5 & A6 & A7).
+  assert (NR : forall n, node_recs n evs = []) by (intros; unfold node_recs; rewrite RE; reflexivity).
+  assert (NS : forall n, node_recs n (since_reset evs) = []) by (intros; rewrite SR; reflexivity).
+  assert (LA : latest (evs ++ [Rec fs fd o]) = Some (fs, fd, o)).
+  { rewrite latest_snoc. unfold latest. rewrite RE. reflexivity. }
+  assert (LN : latest_node (evs ++ [Rec fs fd o]) = reporter fd).
+  { unfold latest_node. rewrite LA. reflexivity. }
+  assert (FR : fronts (evs ++ [Rec fs fd o]) = [o]).
+  { rewrite fronts_snoc. unfold fronts. rewrite RE. cbn. destruct (o_end o); reflexivity. }
+  assert (FD : feeds (reporter fd) (fs, fd, o) = true) by (apply feeds_reporter; exact OK).
+  constructor.
+  - intros n. rewrite A2. exact OL.
+  - rewrite A6. exact OL.
+  - intros n. rewrite A1, node_end_snoc. unfold node_end. rewrite NR. reflexivity.
+  - intros n i Hi D. rewrite A3, node_total_snoc. unfold node_total. rewrite NR. reflexivity.
+  - intros n i Hi D. rewrite A3, node_delta_snoc. unfold node_delta. rewrite NS. cbn [col map].
+    rewrite sum64_nil. destruct (feeds n (fs, fd, o)); [|reflexivity].
+    unfold add64. rewrite N.add_0_r. symmetry. apply N.mod_small. apply stat_range. exact RG.
+  - intros n. rewrite A4, node_tp_snoc. destruct (feeds n (fs, fd, o)).
+    + rewrite NR. cbn [last_opt rev hd_error]. unfold tp_pair. rewrite !mul8_sub0. reflexivity.
+    + unfold node_tp. rewrite NS. reflexivity.
+  - rewrite A5, recs_app, RE. cbn. lia.
+  - exists (fs, fd, o). split; [exact LA | exact A5].
+  - rewrite LN, A1, FD. symmetry. exact A5.
+  - intros i Hi D. rewrite LN, A3, FD, A6. reflexivity.
+  - rewrite LN, A4, FD. exact A7.
+  - rewrite FR, A5. cbn. lia.
+  - intros i Hi D. rewrite FR, A6. cbn. unfold stat. lia.
+  - intros _ x Hx i Hi D. rewrite LA in Hx. inversion Hx. subst x. rewrite A6. reflexivity.
+Qed.
+
+Lemma closed_reset : forall c evs f, closed c evs f -> closed c (evs ++ [Reset]) (spec_reset c f).
+Proof.
+  intros c evs f C.
+  assert (LN : latest_node (evs ++ [Reset]) = latest_node evs).
+  { unfold latest_node. rewrite latest_reset. reflexivity. }
+  assert (ST : forall n, a_stat (nd n (spec_reset c f)) = zero_deltas c (a_stat (nd n f))) by (intros []; reflexivity).
+  assert (TP : forall n, a_tp (nd n (spec_reset c f)) = [0; 0]).
+  { intros n. pose proof (cl_tp _ _ _ C n) as T. destruct (node_tp_two n evs) as (a & b & E).
+    rewrite E in T. destruct n; cbn [nd] in T; cbn [nd spec_reset f_src f_dst reset_node a_tp];
+      rewrite T; reflexivity. }
+  assert (EN : forall n, a_end (nd n (spec_reset c f)) = a_end (nd n f)) by (intros []; reflexivity).
+  constructor.
+  - intros n. rewrite ST. apply zero_deltas_length. apply (cl_len _ _ _ C).
+  - cbn [spec_reset f_stat]. apply zero_deltas_length. apply (cl_lenc _ _ _ C).
+  - intros n. rewrite EN. unfold node_end. rewrite node_recs_reset. apply (cl_end _ _ _ C).
+  - intros n i Hi D. rewrite ST, zero_deltas_nth, D by (try apply (cl_len _ _ _ C); assumption).
+    unfold node_total. rewrite node_recs_reset. apply (cl_tot _ _ _ C); assumption.
+  - intros n i Hi D. rewrite ST, zero_deltas_nth, D by (try apply (cl_len _ _ _ C); assumption).
+    rewrite node_delta_reset. reflexivity.
+  - intros n. rewrite TP, node_tp_reset. reflexivity.
+  - cbn [spec_reset f_end]. rewrite recs_app. cbn [recs flat_map ev_rec]. rewrite app_nil_r. apply (cl_fend _ _ _ C).
+  - rewrite latest_reset. apply (cl_lat _ _ _ C).
+  - rewrite LN, EN. apply (cl_lnode _ _ _ C).
+  - intros i Hi D. rewrite LN, ST. cbn [spec_reset f_stat].
+    rewrite !zero_deltas_nth, D by (try apply (cl_len _ _ _ C); try apply (cl_lenc _ _ _ C); assumption).
+    reflexivity.
+  - rewrite LN, TP. cbn [spec_reset f_tp]. rewrite (cl_ctp _ _ _ C), (cl_tp _ _ _ C).
+    destruct (node_tp_two (latest_node evs) evs) as (a & b & E). rewrite E. reflexivity.
+  - rewrite fronts_reset. apply (cl_fr _ _ _ C).
+  - intros i Hi D. rewrite fronts_reset. cbn [spec_reset f_stat].
+    rewrite zero_deltas_nth, D by (try apply (cl_lenc _ _ _ C); assumption). apply (cl_ctot _ _ _ C); assumption.
+  - intros M x Hx i Hi D. rewrite flow_mono_snoc in M. apply andb_prop in M. destruct M as [M _].
+    rewrite latest_reset in Hx. cbn [spec_reset f_stat].
+    rewrite zero_deltas_nth, D by (try apply (cl_lenc _ _ _ C); assumption).
+    apply (cl_mono _ _ _ C M x Hx); assumption.
+Qed.
+
+(* ---------------------------------------------------------------- aggregateRecords on an existing flow *)
+Lemma idx_facts : forall s l, In s l -> (idx s l < length l)%nat /\ nth (idx s l) l "" = s.
+Proof.
+  induction l as [|x l IH]; intros H; [contradiction|]. cbn [idx].
+  destruct (String.eqb x s) eqn:E.
+  - apply String.eqb_eq in E. subst. split; [simpl; lia | reflexivity].
+  - destruct H as [H|H]; [subst; rewrite String.eqb_refl in E; discriminate|].
+    destruct (IH H) as [I1 I2]. split; [simpl; lia | exact I2].
+Qed.
+Lemma oct_pos_facts : forall c, wf_config c = true ->
+  (oct_pos c < nstats c)%nat /\ is_delta c (oct_pos c) = false /\
+  (roct_pos c < nstats c)%nat /\ is_delta c (roct_pos c) = false.
+Proof.
+  intros c WF. pose proof (wf_config_facts c WF) as W.
+  destruct (idx_facts _ _ (wf_has_oct c W)) as [A1 A2]. destruct (idx_facts _ _ (wf_has_roct c W)) as [B1 B2].
+  unfold oct_pos, roct_pos, nstats, is_delta. rewrite A2, B2. repeat split; assumption.
+Qed.
+
+Lemma sub64_exact : forall a b, b <= a -> a < W64 -> sub64 a b = a - b.
+Proof.
+  intros a b H1 H2. unfold sub64. rewrite (N.mod_small a), (N.mod_small b) by lia.
+  replace (a + W64 - b) with (a - b + 1 * W64) by lia. rewrite N.mod_add by exact W64_pos.
+  apply N.mod_small. lia.
+Qed.
+
+Lemma totals_le_at : forall c p o i, totals_le c p o = true -> (i < nstats c)%nat -> is_delta c i = false ->
+  stat i p <= stat i o.
+Proof.
+  intros c p o i H Hi D. unfold totals_le in H. rewrite forallb_forall in H.
+  assert (IN : In i (seq 0 (nstats c))) by (apply in_seq; lia).
+  apply H in IN. rewrite D in IN. cbn [orb] in IN. apply N.leb_le. exact IN.
+Qed.
+
+Section AggStep.
+Variables (c : agg_config) (evs : list fev) (f0 : flow_abs) (fs fd : bool) (o : rec_obs).
+Hypothesis WFC : wf_config c = true.
+Hypothesis C : closed c evs f0.
+Hypothesis WE : wf_events c evs = true.
+Hypothesis OK : ev_ok c evs (Rec fs fd o) = true.
+Hypothesis OB : obs_ok c o.
+Hypothesis OBS : forall x, In x (recs evs) -> obs_ok c (snd x).
+
+Local Notation x := (fs, fd, o).
+Local Notation R := (reporter fd).
+
+Lemma ag_parts :
+  (fs || fd) = true /\ o_start o < o_end o /\ (forall v, In v (o_stat o) -> v < W64) /\
+  (forall y, In y (recs evs) -> fst (fst y) && snd (fst y) = fs && fd) /\
+  (forall n, node_ok c evs n x = true).
+Proof.
+  pose proof OK as H. unfold ev_ok in H.
+  repeat (let X := fresh "E" in apply andb_prop in H; destruct H as [H X]).
+  split; [exact H|]. split; [apply N.ltb_lt; exact E3|].
+  split; [intros v Hv; rewrite forallb_forall in E2; apply N.ltb_lt; apply E2; exact Hv|].
+  split; [intros y Hy; rewrite forallb_forall in E1; apply eqb_prop; apply E1; exact Hy|].
+  intros []; assumption.
+Qed.
+
+Lemma ag_same_stream : forall n, feeds n x = true -> node_recs n evs = node_recs R evs.
+Proof.
+  destruct ag_parts as (_ & _ & _ & FL & _).
+  intros n Hn. destruct n; cbn [feeds fst snd] in Hn.
+  - subst fs. destruct fd; [|reflexivity]. cbn [reporter].
+    apply (both_same evs); intros y Hy; rewrite (FL y Hy); reflexivity.
+  - subst fd. reflexivity.
+Qed.
+
+Lemma ag_prev :
+  prev_end (nd R f0) o = match last_opt (node_recs R evs) with Some p => o_end p | None => o_start o end /\
+  prev_end (nd R f0) o < o_end o.
+Proof.
+  destruct ag_parts as (F & LT & _ & _ & NO).
+  pose proof (NO R) as N1. unfold node_ok in N1.
+  rewrite (feeds_reporter _ _ _ F) in N1.
+  unfold prev_end. rewrite (cl_end _ _ _ C R). unfold node_end.
+  destruct (last_opt (node_recs R evs)) as [p|] eqn:E.
+  - apply andb_prop in N1. destruct N1 as [N1 _]. apply N.ltb_lt in N1. cbn [snd] in N1.
+    apply last_opt_in in E. apply in_node_recs in E. destruct E as (y & Y1 & Y2).
+    destruct (wf_recs c evs WE y Y1) as (P1 & _). rewrite Y2 in P1.
+    assert (Z : N.eqb (o_end p) 0 = false) by (apply N.eqb_neq; lia). rewrite Z. split; [reflexivity | exact N1].
+  - rewrite N.eqb_refl. split; [reflexivity | exact LT].
+Qed.
+
+Lemma ag_vals : agg_vals c f0 fd o = tp_pair (last_opt (node_recs R evs)) o.
+Proof.
+  destruct ag_parts as (F & LT & RG & _ & NO).
+  destruct (oct_pos_facts c WFC) as (P1 & P2 & P3 & P4).
+  destruct ag_prev as [PV _]. destruct OB as (OL & OO & OR).
+  unfold agg_vals.  rewrite PV.
+  rewrite (cl_tot _ _ _ C R _ P1 P2), (cl_tot _ _ _ C R _ P3 P4). unfold node_total, tp_pair.
+  pose proof (NO R) as N1. unfold node_ok in N1.
+  rewrite (feeds_reporter _ _ _ F) in N1.
+  destruct (last_opt (node_recs R evs)) as [p|] eqn:E.
+  - apply andb_prop in N1. destruct N1 as [_ N1]. cbn [snd] in N1.
+    apply last_opt_in in E. apply in_node_recs in E. destruct E as (y & Y1 & Y2).
+    destruct (OBS y Y1) as (_ & Q1 & Q2). rewrite Y2 in Q1, Q2.
+    rewrite OO, OR, Q1, Q2.
+    rewrite !sub64_exact; try (apply stat_range; exact RG); try (eapply totals_le_at; eassumption).
+    reflexivity.
+  - rewrite OO, OR. rewrite !sub64_exact; try (apply stat_range; exact RG); try lia. reflexivity.
+Qed.
+
+(* a record that does not carry the latest end time does not come from the latest reporter *)
+Lemma ag_not_latest : N.leb (f_end f0) (o_end o) = false -> feeds (latest_node evs) x = false.
+Proof.
+  intros NL. apply N.leb_gt in NL. destruct ag_parts as (_ & _ & _ & _ & NO).
+  destruct (feeds (latest_node evs) x) eqn:FE; [|reflexivity]. exfalso.
+  pose proof (NO (latest_node evs)) as N1. unfold node_ok in N1. rewrite FE in N1.
+  pose proof (cl_lnode _ _ _ C) as L1. rewrite (cl_end _ _ _ C) in L1. unfold node_end in L1.
+  destruct (last_opt (node_recs (latest_node evs) evs)) as [p|].
+  - apply andb_prop in N1. destruct N1 as [N1 _]. apply N.ltb_lt in N1. cbn [snd] in N1. lia.
+  - lia.
+Qed.
+
+Lemma closed_agg : closed c (evs ++ [Rec fs fd o]) (spec_agg c f0 fs fd o).
+Proof.
+  destruct ag_parts as (F & LT & RG & FL & NO). destruct ag_prev as [PV PLT]. destruct OB as (OL & OO & OR).
+  destruct (spec_agg_facts c f0 fs fd o WFC (cl_len _ _ _ C SrcNode) (cl_len _ _ _ C DstNode)
+              (cl_lenc _ _ _ C) OL F PLT) as (A1 & A2 & A3 & A4 & A5 & A6 & A7 & A8).
+  set (f := spec_agg c f0 fs fd o) in *.
+  destruct (cl_lat _ _ _ C) as (y & LY & EY).
+  assert (LA : latest (evs ++ [Rec fs fd o]) = if N.leb (f_end f0) (o_end o) then Some x else Some y).
+  { rewrite latest_snoc, LY. unfold later. rewrite <- EY. reflexivity. }
+  assert (LN : latest_node (evs ++ [Rec fs fd o]) = if N.leb (f_end f0) (o_end o) then R else latest_node evs).
+  { unfold latest_node. rewrite LA, LY. destruct (N.leb (f_end f0) (o_end o)); reflexivity. }
+  assert (FR : feeds R x = true) by (apply feeds_reporter; exact F).
+  assert (TPF : forall n, a_tp (nd n f) = if feeds n x then agg_vals c f0 fd o else a_tp (nd n f0)).
+  { intros n. rewrite A5.  rewrite (cl_tp _ _ _ C n).
+    destruct (node_tp_two n evs) as (a & b & E). rewrite E. destruct (feeds n x); reflexivity. }
+  constructor.
+  - exact A2.
+  - exact A3.
+  - intros n. rewrite A1, node_end_snoc.  rewrite (cl_end _ _ _ C n). reflexivity.
+  - intros n i Hi D. rewrite (A4 n i Hi), node_total_snoc, D.  unfold new_node.
+    rewrite (cl_tot _ _ _ C n i Hi D). reflexivity.
+  - intros n i Hi D. rewrite (A4 n i Hi), node_delta_snoc, D.  unfold new_node.
+    rewrite (cl_del _ _ _ C n i Hi D). reflexivity.
+  - intros n. rewrite TPF, node_tp_snoc.  destruct (feeds n x) eqn:FE.
+    + rewrite ag_vals, (ag_same_stream n FE). reflexivity.
+    + apply (cl_tp _ _ _ C n).
+  - rewrite A6, recs_app, map_app. cbn [recs flat_map ev_rec app map snd]. rewrite maxl_snoc.
+    rewrite <- (cl_fend _ _ _ C). destruct (N.leb_spec (f_end f0) (o_end o)); lia.
+  - rewrite LA, A6. destruct (N.leb (f_end f0) (o_end o)).
+    + exists x. split; reflexivity.
+    + exists y. split; [reflexivity | exact EY].
+  - rewrite LN, A6. destruct (N.leb (f_end f0) (o_end o)) eqn:LE.
+    + rewrite A1.  rewrite FR. reflexivity.
+    + rewrite A1.  rewrite (ag_not_latest LE). apply (cl_lnode _ _ _ C).
+  - intros i Hi D. rewrite LN, (A7 i Hi), D. destruct (N.leb (f_end f0) (o_end o)) eqn:LE; [reflexivity|].
+    rewrite (A4 _ i Hi).  rewrite (ag_not_latest LE). unfold new_node. apply (cl_cdel _ _ _ C); assumption.
+  - rewrite LN, A8. rewrite (cl_ctp _ _ _ C), (cl_tp _ _ _ C).
+    destruct (node_tp_two (latest_node evs) evs) as (a & b & E). rewrite E.
+    destruct (N.leb (f_end f0) (o_end o)) eqn:LE.
+    + rewrite TPF, FR. reflexivity.
+    + rewrite TPF, (ag_not_latest LE), (cl_tp _ _ _ C), E. reflexivity.
+  - rewrite fronts_snoc, (cl_fr _ _ _ C), A6. destruct (N.leb_spec (f_end f0) (o_end o)).
+    + rewrite map_app. cbn [map]. rewrite maxl_snoc, (cl_fr _ _ _ C). lia.
+    + apply (cl_fr _ _ _ C).
+  - intros i Hi D. rewrite fronts_snoc, (cl_fr _ _ _ C), (A7 i Hi), D.
+    destruct (N.leb (f_end f0) (o_end o)).
+    + unfold col. rewrite map_app. cbn [map]. rewrite maxl_snoc. fold (col i (fronts evs)).
+      rewrite <- (cl_ctot _ _ _ C i Hi D). reflexivity.
+    + apply (cl_ctot _ _ _ C i Hi D).
+  - intros M z Hz i Hi D. rewrite flow_mono_snoc in M. apply andb_prop in M. destruct M as [M1 M2].
+    rewrite LA in Hz. rewrite (A7 i Hi), D. unfold mono_ok in M2. rewrite LY, <- EY in M2.
+    pose proof (cl_mono _ _ _ C M1 y LY i Hi D) as IH.
+    destruct (N.leb (f_end f0) (o_end o)).
+    + inversion Hz. subst z. cbn [snd]. rewrite IH.
+      pose proof (totals_le_at _ _ _ i M2 Hi D). lia.
+    + inversion Hz. subst z. exact IH.
+Qed.
+End AggStep.
